@@ -589,6 +589,65 @@ def big_oneof_probe(ctx, b):
     return problems
 
 
+# ---------------------------------------------------------------- request sequences through one collect
+def pair_stream(ctx, real, schemas, picks, only=None):
+    """Ordered pairs of requests through ONE ComplexCollect (as the instances of one file go through one Registry): for every
+    ordered pair (X1, X2) of non-empty subsets `use k; q X1; q X2` — oracle: the verdict on X2 equals the verdict X2 gets from a
+    freshly built collect, i.e. it does not depend on the request before it (ComplexList::matches ends with reset() +
+    unmarkAll(); model counterpart: C08_matches_restores_marks).  A request that kills the process is a failing input too."""
+    def lines_of(out):
+        return [x for x in out.split("\n") if x]
+
+    def work(k):
+        schema = schemas[k]
+        num, names = ranks(schema)
+        ms = G.mult_supers(schema)
+        subsets = [sorted(X, key=lambda n: num[n]) for X in G.all_subsets(names)]
+        q = ["q " + " ".join(n + ("*" if n in ms else "") for n in X) for X in subsets]
+        use = f"use {real.index[k]}\n"
+        env = real.b.env()
+        # verdict of every subset on a fresh collect
+        r = subprocess.run([real.exe], input="".join(use + x + "\n" for x in q), capture_output=True, text=True, env=env, timeout=3600)
+        rep = lines_of(r.stdout)
+        fresh = [rep[2 * i + 1] if 2 * i + 1 < len(rep) else "CRASH" for i in range(len(q))]
+        pairs = [(i, j) for i in range(len(q)) for j in range(len(q))]
+        if only is not None:
+            pairs = [(i, j) for i, j in pairs if set(subsets[i]) == set(only[0]) and set(subsets[j]) == set(only[1])]
+        res, todo = [], pairs
+        while todo:
+            r = subprocess.run([real.exe], input="".join(use + q[i] + "\n" + q[j] + "\n" for i, j in todo),
+                               capture_output=True, text=True, env=env, timeout=3600)
+            rep = lines_of(r.stdout)
+            done = len(rep) // 3
+            for t in range(done):
+                res.append((todo[t], rep[3 * t + 1], rep[3 * t + 2]))
+            if done < len(todo):          # the process died inside pair number `done`
+                part = rep[3 * done:]
+                first = part[1] if len(part) > 1 else "CRASH"
+                res.append((todo[done], first, f"CRASH rc={r.returncode} {sanitizer_site(r.stderr)}" if len(part) > 1 else "-"))
+                if len(part) <= 1:
+                    res[-1] = (todo[done], f"CRASH rc={r.returncode} {sanitizer_site(r.stderr)}", "-")
+                todo = todo[done + 1:]
+            else:
+                todo = []
+        bad = []
+        for (i, j), r1, r2 in res:
+            ctx.count(1, key=("pair", k, i, j))
+            if r1 != fresh[i] or (r2 != "-" and r2 != fresh[j]):
+                bad.append({"first": subsets[i], "second": subsets[j], "reply_first": r1, "reply_second": r2,
+                            "fresh_first": fresh[i], "fresh_second": fresh[j]})
+        return k, len(res), bad
+
+    problems, npairs = [], 0
+    with cf.ThreadPoolExecutor(int(B.NPROC)) as ex:
+        for k, n, bad in ex.map(work, [k for k in picks if k not in real.fail]):
+            npairs += n
+            for d in sorted(bad, key=lambda d: (len(d["first"]) + len(d["second"]), d["first"], d["second"]))[:3]:
+                problems.append(("sequence", k, dict(d, nbad=len(bad))))
+    ctx.hist("probes", "ordered request pairs through one collect", npairs)
+    return problems
+
+
 # ---------------------------------------------------------------- reporting
 def report(ctx, problems, schemas, labels):
     nviol = 0
@@ -617,6 +676,18 @@ def report(ctx, problems, schemas, labels):
             else:
                 ctx.broken.append(("correspondence real matcher vs Lean matcher model (the property holds on this request)",
                                    desc + " replay: " + json.dumps(rep)[:3000]))
+    for kind, k, d in problems:
+        if kind == "sequence":
+            schema = schemas[k]
+            ctx.hist("failing-classes", "verdict-depends-on-earlier-request", 1)
+            key = "sequence:" + input_key(schema, d["second"]) + "|after|" + ",".join(d["first"])
+            what = ("the verdict on a request depends on the request before it" if not str(d["reply_second"]).startswith("CRASH") and
+                    not str(d["reply_first"]).startswith("CRASH") else "crash in a sequence of requests through one collect")
+            ctx.violation(key, f"{what}: schema [{G.render_schema(schema).strip()}], first {d['first']} -> {d['reply_first']!r} "
+                               f"(fresh collect: {d['fresh_first']!r}), then {d['second']} -> {d['reply_second']!r} "
+                               f"(fresh collect: {d['fresh_second']!r}); {d['nbad']} ordered pairs of this schema differ",
+                          {"schema": schema, "express": G.render_schema(schema), "sequence": [d["first"], d["second"]],
+                           "X": d["second"], "how": "./check C08 --replay <this file>  (harness: `use 0`, `q <first>`, `q <second>`)"})
     for kind, k, d in problems:
         if kind == "hang":
             ctx.hist("failing-classes", HANG_KEY, 1)
@@ -743,6 +814,13 @@ def run(ctx):
     problems += sort_stream(ctx, real, 600 if quick else 6000)
     ctx.cov["correspondence"]["sort-after-renaming"] = {"wall_s": round(time.time() - t, 1)}
     problems += big_oneof_probe(ctx, b)
+    # request sequences: all ordered pairs through one collect, on the corpus, the fixed shapes and a sample of small graphs
+    t = time.time()
+    small = [i for i, sc in enumerate(schemas) if len(sc) <= 6 and not labels[i].startswith(("corpus", "fixed"))]
+    picks = [i for i, l in enumerate(labels) if l.startswith(("corpus", "fixed")) and len(schemas[i]) <= 7]
+    picks += small[::max(1, len(small) // (10 if quick else 80))][:(10 if quick else 80)]
+    problems += pair_stream(ctx, real, schemas, picks)
+    ctx.cov["correspondence"]["ordered-pairs"] = {"schemas": len(picks), "wall_s": round(time.time() - t, 1)}
     # end to end on a sample
     t = time.time()
     ne2e = 2 if quick else 12
@@ -778,6 +856,8 @@ def replay(ctx, path):
     X = set(r.get("X") or [])
     if X:
         problems = [p for p in problems if p[0] != "property" or set(p[2]["X"]) == X]
+    if r.get("sequence"):
+        problems += pair_stream(ctx, real, [schema], [0], only=r["sequence"])
     if r.get("p21"):
         exe, dd = e2e_exe(ctx, b, schema, "replay")
         for p in e2e_file(ctx, b, exe, dd, schema, [r.get("order") or sorted(X)]):
